@@ -805,6 +805,17 @@ def visible_tokens(boxes, order, canvas, quirks=()):
         r = boxes[n]
         if layer in ('open', 'close'):
             continue
+        if layer == 'collapsed':
+            # collapsed borders come from the table, its row groups, rows and cells: ink only if one is visible
+            parts = [n]
+            for g in r['kids']:
+                parts.append(g)
+                for row in boxes[g]['kids']:
+                    parts.append(row)
+                    parts.extend(boxes[row]['kids'])
+            if any(boxes[x]['visible'] for x in parts) or 'hidden-table-collapsed-borders' in quirks:
+                toks.append((n, 'collapsed', None))
+            continue
         if not r['visible']:
             continue
         if layer == 'bg':
@@ -816,15 +827,13 @@ def visible_tokens(boxes, order, canvas, quirks=()):
                 sides = [s for s in 'trbl' if (r['b' + s] or 0) > 0 and r['bc' + s] and r['bc' + s][3] > 0]
                 if sides:
                     cols = sorted(set(colour_index(r['bc' + s]) for s in sides), key=lambda v: (v is None, v))
-                    toks.append((n, 'border', cols[0] if len(cols) == 1 else tuple(cols)))
+                    toks.append((n, 'border-bogus', cols[0] if len(cols) == 1 else tuple(cols)))
         elif layer in ('border', 'cell-border'):
             sides = [s for s in 'trbl' if (r['b' + s] or 0) > 0 and r['bs' + s] not in ('none', 'hidden')
                      and r['bc' + s] and r['bc' + s][3] > 0]
             if sides:
                 cols = sorted(set(colour_index(r['bc' + s]) for s in sides), key=lambda v: (v is None, v))
                 toks.append((n, 'border', cols[0] if len(cols) == 1 else tuple(cols)))
-        elif layer == 'collapsed':
-            toks.append((n, 'collapsed', None))
         elif layer == 'content':
             if r['cls'] == 'TextBox' and r.get('text', '').strip():
                 toks.append((n, 'text', colour_index(r['color'])))
@@ -983,7 +992,7 @@ def match_tokens(tokens, leaves):
         if it['kind'] != want_kind or idx not in cols:
             return pairs, ('unexpected', tok, (it['kind'], idx), i)
         j = i + 1
-        if role == 'border':
+        if role in ('border', 'border-bogus'):
             while j < len(leaves) and leaves[j]['kind'] == 'fill' and colour_index(leaves[j]['rgb']) in cols:
                 j += 1
         pairs.append((tok, leaves[i:j]))
@@ -1094,12 +1103,14 @@ def judge_geometry(boxes, pairs, geo, doc, fonts_cache):
                     bad.append(('border-area', n, 'fill is not border box minus padding box: %s' % (
                         [[(round(x, 3), round(y, 3)) for x, y in sp] for sp in got][:3],)))
                     break
-            if not uniform and len(items) == len(sides):
+            bx, by, bw, bh = geo.box_rect(n, 'border-box')
+            if not uniform and len(items) == len(sides) and bw > 4 * TOL and bh > 4 * TOL:
                 # one fill per side, each clipped to its side: the middle of the side's strip is inside the
                 # innermost clip, the middle of the opposite strip is not
-                bx, by, bw, bh = geo.box_rect(n, 'border-box')
-                mid = {'t': (bx + bw / 2, by + r['bt'] / 2), 'b': (bx + bw / 2, by + bh - r['bb'] / 2),
-                       'l': (bx + r['bl'] / 2, by + bh / 2), 'r': (bx + bw - r['br'] / 2, by + bh / 2)}
+                # a point of each side's strip close to the outer edge (inside the mitred trapezoid whatever the
+                # neighbouring widths are)
+                mid = {'t': (bx + bw / 2, by + r['bt'] / 4), 'b': (bx + bw / 2, by + bh - r['bb'] / 4),
+                       'l': (bx + r['bl'] / 4, by + bh / 2), 'r': (bx + bw - r['br'] / 4, by + bh / 2)}
                 opp = {'t': 'b', 'b': 't', 'l': 'r', 'r': 'l'}
                 order = [s for s in 'blrt' if s in sides]       # draw_border paints bottom, left, right, top
                 for s, it in zip(order, items):
@@ -1176,7 +1187,8 @@ def prepare_tokens(page_rec, order, quirks=()):
     return toks, toks_rest, canvas
 
 
-QUIRKS = ('z-index-on-non-positioned', 'table-part-context-background-lost', 'collapsed-cell-context-border')
+QUIRKS = ('z-index-on-non-positioned', 'table-part-context-background-lost', 'collapsed-cell-context-border',
+          'hidden-table-collapsed-borders')
 
 
 def describe(boxes, n):
